@@ -486,6 +486,28 @@ def backward_cores(run, m, F, E, L):
                 vl = I.as_s(s2, v)
                 if s2.is_eq0(vl + 1) is True:
                     continue
+                # a result taken over from a delegated search (the function calling itself, or find_last calling _find_last) answers
+                # the caller's question only if the delegate was asked the same question: same limit, needle, length and case mode
+                me = [x for x in s2.events if x[0] == 'member']
+                idxv = s2.flags.get('idx')
+                if me and isinstance(idxv, IntV) and s2.is_eq0(vl - idxv.lin) is True and me[-1][2].split('(')[0] == f.dem.split('(')[0]:
+                    dargs = me[-1][3]
+                    names = ['this', 'limit', 'needle', 'length', 'case mode'] if form == 'needle' else ['this', 'limit', 'character', 'case mode']
+                    for k2, (own_a, del_a) in enumerate(zip(args, dargs)):
+                        if isinstance(own_a, IntV) and isinstance(del_a, IntV):
+                            ou, du = I.as_u(s2, own_a), I.as_u(s2, del_a)
+                            if ou is None or du is None or s2.is_eq0(ou - du) is True:
+                                continue
+                            env = s2.find_model([ou - du], lambda w: w[0] != 0)
+                            if env is not None:
+                                p3.append('returns the answer of a delegated search that was asked with another %s (%r instead of %r); witness %s' % (
+                                    names[k2] if k2 < len(names) else 'argument', del_a, own_a, own.fmt_env(env)))
+                            else:
+                                und.append('delegated search with a %s not decided equal to the caller\'s' % (names[k2] if k2 < len(names) else 'argument'))
+                        elif isinstance(own_a, PtrV) and isinstance(del_a, PtrV):
+                            if not (own_a.obj == del_a.obj and s2.is_eq0(own_a.off - del_a.off) is True):
+                                und.append('delegated search on another %s' % (names[k2] if k2 < len(names) else 'argument'))
+                    continue
                 # a non-negative result is (remembered pointer - c_str())
                 base = Lin.atom('addr:' + sto.obj) + sto.off
                 ptrs = [bv for nm, bv in b.items() if isinstance(bv, PtrV) and bv.obj is not None and
